@@ -370,6 +370,11 @@ def commit (text : TextSet) (e : Esc) : Out (TextSet × Esc) := do
         | some r => Out.ok (ts.set n (some { tr with root := r }))
         | none => Out.panic "index out of range: command without arguments"
       | _ => Out.ok ts) text1
-  pure (text2, { e with called := [], actionEdits := [], tmplEdits := [], textEdits := [] })
+  -- `e.derived[n]` and the installed template share one *parse.Tree: the edits are visible through both
+  let derived := e.derived.map fun (p : String × Tree) =>
+    match text2.lookup p.1 with
+    | some (some t) => (p.1, t)
+    | _ => p
+  pure (text2, { e with derived := derived, called := [], actionEdits := [], tmplEdits := [], textEdits := [] })
 
 end SafeHtml.Model.Tmpl
